@@ -204,6 +204,9 @@ def generate(cls, rng):
                         rng.choice(vals)])
         else:
             q = gen_query(rng)
+            if not is_rule and rng.random() < 0.3:
+                q = [["mem"] + a[1:] if isinstance(a, list) and a and
+                     a[0] == "at" else a for a in q]
             if rng.random() < 0.6:
                 # the same query to all three twins in a generated order
                 order = [0, 1, 2]
@@ -245,6 +248,19 @@ def execute(cls, scenario, ctx):
         ctx.count("skipped_costly")
         return
     base = RL.dt(tspec.get("dtstart") or tspec.get("base"))
+    cost_of_L = RL.LAST_MODEL_COST
+    if tspec.get("kind") == "set":
+        # every instant any member produces or lists, excluded ones too
+        pool = set()
+        try:
+            for r in tspec["rrules"] + tspec["exrules"]:
+                pool.update(RL.model_list(r))
+        except RL.ModelTooCostly:
+            pass
+        for d in tspec["rdates"] + tspec["exdates"]:
+            pool.add(RL.dt(d))
+        RL.MEMBER_INSTANTS = sorted(pool)
+        RL.LAST_MODEL_COST = cost_of_L
     twins = [RL.build_target(tspec, cache=False),
              RL.build_target(tspec, cache=True),
              RL.build_target(tspec, cache=True)]
